@@ -116,7 +116,7 @@ ASSUMPTIONS = ['fe_mean_axis: IEEE + and / are uninterpreted functions shared by
 CLAIM = dict(
  text='For a hybrid 3-d unsigned array with symbolic extents (1..2 quick, 1..3 thorough), data, axis/axes (positive or negative, any order), result index and initial value the solver shows: '
       'view::reduce over one axis, two axes, three axes and None, with keepdims false/true as a type or a run-time bool and initial absent/present, has NumPy\'s result shape and its element is the left fold '
-      '(non-commutative subtract) of exactly the source elements with matching non-reduced coordinates in increasing index order; accumulate_subtract is the running fold (non-negative axes); '
+      '(non-commutative subtract) of exactly the source elements with matching non-reduced coordinates in increasing index order; accumulate_subtract is the running fold (every axis in [-3,2]); explicitly named axes that reduce the array to a NUMBER with and without initial; a result dtype (uint8 elements folded in uint32, uint32 elements folded in uint8) for reduce and accumulate, also combined with axis=None, initial and keepdims; '
       'index::remove_dims / reduction_slices equal their definitions for every shape of dim 1..4 with arbitrary 64-bit extents; sum, prod, amax, amin, cumsum, cumprod, trace and mean agree with these definitions. '
-      'Two defects found (negative axis in accumulate; remove_dims with run-time keepdims) and excluded as pending findings.',
+      'Two defects found: negative axis in accumulate (repaired in /repo) and remove_dims with a run-time keepdims (open, excluded, reported as KNOWN-FINDING).',
  note='Bounded as listed per harness; some forms are decided per constant shape (all shapes enumerated). Trusted: clang-14 -O1 lowering, engine/ll2c.py, CBMC, kissat; validated per run by the differential gate and witness assertions.')
